@@ -1,6 +1,7 @@
 From Coq Require Extraction ExtrOcamlBasic.
 From OxiVerif Require Import Base.Conv DD.Table DD.TableExtra DD.Sem DD.Build DD.Apply DD.Cache
-  DD.ConfigApply DD.Rename Num.I64.
+  DD.ConfigApply DD.Rename Num.I64
+  DD.ApplyBcdd DD.FamSpec DD.ZbddOps DD.ZbddVars DD.ZbddBool DD.ConfigBcdd DD.ConfigZbdd.
 Extraction Language OCaml.
 Extraction "model.ml" conv_anchor
   Table.sem_edge Table.wf_b TableExtra.wf_full_b Table.rc_exact_b Table.count_reach Table.famz
@@ -9,4 +10,7 @@ Extraction "model.ml" conv_anchor
   Build.fresh_id Apply.nc_get Apply.nc_add Apply.ac_get Apply.ac_add Apply.bdd_ok_b
   Cache.dm_init Cache.dmr_get Cache.dmr_add
   ConfigApply.sched_depth ConfigApply.mstep ConfigApply.run_ops ConfigApply.observe
-  Rename.rename_snap Rename.rename_edge Rename.addr_of.
+  Rename.rename_snap Rename.rename_edge Rename.addr_of
+  ApplyBcdd.eac_get ApplyBcdd.eac_add ApplyBcdd.enc_get ApplyBcdd.enc_add ApplyBcdd.bcok_b
+  ZbddOps.zac_get ZbddOps.zac_add ZbddOps.znc_get ZbddOps.znc_add ZbddOps.zbdd_ok_b ZbddBool.zchain_ok_b
+  ZbddVars.zadd_vars ConfigBcdd.cmstep ConfigZbdd.zmstep.
